@@ -3,6 +3,14 @@
 # kind: rapid (default) | exhaustive | plain
 # quick/thorough: checks = total rapid cases over all shards; shards = processes; timeout = seconds per shard
 PARTS = {
+    "C05": [
+        {"test": "TestVfC05Converge",
+         "quick": {"checks": 1200, "shards": 12, "timeout": 900},
+         "thorough": {"checks": 16000, "shards": 16, "timeout": 3000}},
+        {"test": "TestVfC05Announce",
+         "quick": {"checks": 4000, "shards": 4, "timeout": 600},
+         "thorough": {"checks": 300000, "shards": 16, "timeout": 2400}},
+    ],
     "C14": [
         {"test": "TestVfC14Shutdown", "replay_runs": 20,
          "quick": {"checks": 12000, "shards": 4, "timeout": 900, "gomaxprocs": [16, 2, 16, 4]},
@@ -144,6 +152,20 @@ RULES = {
            "object graph, and from the connection manager's protections (configuration such as the direct-peer set and the blacklist "
            "exempt). Non-trivial: an RPC after the outbound close, streams closed in another order than opened, or a validation that may "
            "outlive the connection. Distinct = case JSON.",
+    "C05": "(NET) 2-4 real nodes (gossipsub / floodsub / randomsub mixes, outbound queue size 1, 2 or 32) plus a skeleton observer on "
+           "full libp2p hosts over simnet with generated link latencies; histories of up to 24 operations - Subscribe, "
+           "Subscription.Cancel, Relay, relay-cancel (also twice), Topic.Close, fanout-only joins, connect, whole-peer disconnect, reset "
+           "of one pubsub stream with the connection kept (at most 3 per directed pair), publishes, waits of 1 ms - 1.2 s, the observer "
+           "(un)subscribing - with a state-aware generator (cancellations hit live references, half of the histories tear node 0 down "
+           "in a generated order) followed by late joiners and late resets; at every quiet point (18 virtual seconds) ListPeers of "
+           "every node and topic equals {connected peers whose model interest is true}, and the observer's fold of hello packet + "
+           "announcements in wire order on the newest stream equals each node's interest; cancelled subscriptions end with "
+           "ErrSubscriptionCancelled. (DD) a direct-driven node with fake peers whose queues (capacity 1-3) are drained only when the "
+           "history says so: the same operations plus peer arrival / death, drains and waits around the 1 s retry delay; each peer's "
+           "fold equals the node's interest at quiet points; every subscription holds exactly the messages published while it was "
+           "live (up to its buffer of 1, 2, 4 or 32), then ErrSubscriptionCancelled if cancelled, then blocks if live. Non-trivial: "
+           "interest returns to zero and rises again or a stream was reset (NET); an announcement hit a full queue or a subscription "
+           "was cancelled with buffered messages (DD). Distinct = case JSON.",
     "C14": "direct-driven node of each router (gossipsub with scoring and gater; with or without a discovery service; 2 real connector "
            "goroutines, automatic heartbeats, a slow validator with 0-4 remote messages in validation) under 1-4 concurrent caller "
            "goroutines issuing 1-10 calls each of 23 APIs (join, subscribe, Next, cancel, publish, publish-with-readiness, batch, relay, "
@@ -283,6 +305,9 @@ RULES = {
 ASSUMPTIONS = {
     "C12": ["framing (oversized, truncated, zero-length frames on a real stream) is exercised by the network-level part, not here",
             "native fuzzing cannot be pinned to a seed; the saved input is the reproducible unit"],
+    "C05": ["connected(i,j) is what both libp2p hosts report; a case whose connection state differs from the script at a quiet point is inconclusive",
+            "stream resets are limited to 3 per directed pair: the dead-peer back-off gives up after MaxBackoffAttempts = 4 respawns in 10 minutes by design",
+            "the model of interest is: a live relay reference, or a live subscription on a topic that was not joined fanout-only"],
     "C14": ["direct-drive replaces comm.go's per-stream goroutines by the harness, so their termination is not covered here",
             "inside a synctest bubble a goroutine waiting for a sync.Mutex freezes the virtual clock, so callers of Topic.Close / SetScoreParams are serialised against the other calls on the same handle by the harness (on channels) and the real mutex is probed with TryLock instead; a frozen bubble is reported as inconclusive (exit 2), never as a violation",
             "calls that wait by contract on the caller's context (Next, NextPeerEvent, Publish with readiness) get a 150 ms caller deadline",
@@ -329,6 +354,15 @@ META = {
                 "retention and state created after the disconnect.",
         "note": "Direct-drive bypasses comm.go; the reflection walk follows only this module's types. One open known finding (gater entry created by a late validation verdict) is excused by its own key.",
         "technique": "stateful property-based testing (rapid) with absence oracle incl. reflection walk of the object graph",
+    },
+    "C05": {
+        "text": "Stateful property-based testing against a reference model of interest (reference counts over subscriptions and relays, "
+                "fanout-only flag) on a simulated network of real nodes with stream-level fault injection, observed through ListPeers on "
+                "every node and through a skeleton peer that folds the wire; plus a direct-driven part where outbound queues stay full "
+                "for generated periods. Finds reference-count mistakes, stale retries, hello packets that disagree with the state, "
+                "state lost or kept across stream resets and reconnects, subscriptions that lose buffered messages on Cancel.",
+        "note": "Two genuine defects found and repaired (stream reset forgot subscriptions; unsubscribe retry vs fanout-only).",
+        "technique": "stateful / model-based property-based testing (rapid) on a simulated libp2p network with fault injection, plus direct-drive histories",
     },
     "C14": {
         "text": "Property-based testing over concurrent API workloads x cancellation points (by call count, by virtual instant, by a racing "
